@@ -1639,6 +1639,16 @@ class PureInterp:
                 setattr(o, name, kwargs[arg])
             elif default is not Ellipsis:
                 setattr(o, name, default)
+            else:
+                continue
+            # attrs runs a field's converter on whatever value the field gets - the given one or the default
+            conv = next((k.value for k in value.keywords if k.arg == "converter"), None) if isinstance(value, ast.Call) else None
+            if conv is not None:
+                try:
+                    f_ = self.eval(conv, {}, cls.module)
+                    setattr(o, name, self.apply(f_, [getattr(o, name)], {}, 0))
+                except (Unsupported, CantEval):
+                    pass
 
     def e_Await(self, n, env, module, depth):
         # sequential model: awaiting a coroutine runs it to completion here (scheduling points are the path explorer's business)
